@@ -100,3 +100,21 @@ Section Py.
     if nisinf r && negb (nisinf x) && negb (nisnan x) then Err OverflowErr
     else Ok r.
 End Py.
+
+(* "Summation and closeness are functions of the values": needed where a theorem
+   compares a graph with a re-resolved copy whose numbers are value-equal (==) but
+   possibly differently represented (1 vs 1.0, 0.0 vs -0.0).  True for binary64 on
+   lists of floats (Neumaier summation only ever looks at values).  It is
+   deliberately NOT claimed for lists mixing Python ints and floats: builtin sum()
+   adds ints without compensation, so there the representation can matter. *)
+Class SumLaws (N : NumOps) (L : NumLaws N) := {
+  float_notint : forall x, nisint (nfloat x) = false;
+  f0_notint : nisint nf0 = false;
+  isclose_veq : forall a a' b r t,
+      neqb a a' = true -> isclose a b r t = isclose a' b r t;
+  sum_float_veq : forall l l',
+      Forall2 (fun x y => neqb x y = true) l l' ->
+      (forall x, In x l -> nisint x = false) -> (forall y, In y l' -> nisint y = false) ->
+      neqb (pysum l) (pysum l') = true \/
+      (nisnan (pysum l) = true /\ nisnan (pysum l') = true);
+}.
